@@ -338,6 +338,19 @@ def params_physics(draw, tier):
     return p
 
 
+def run_serial(ctx):
+    """Wheel tissues: a hub with 24 and with 135 neighbours (one cell taking part in more than 127 equations)."""
+    from ..core import run_case
+    for N, seed in ((24, 3), (135, 5)):
+        p = {"kind": "wheel", "nx": N, "ny": 1, "seed": seed + int(ctx.seed), "n_int": {"mode": "const", "k": 3},
+             "pose": {"rot_mode": "uniform", "angle": 0.3, "shift": [0.0, 0.0], "logscale": 0.0, "reflect": False},
+             "lab": None, "tension_mode": "random", "tseed": 11 + int(ctx.seed), "flip2": 7, "scale2": 7.0, "tpow": 1.0,
+             "straighten": None}
+        ctx.evaluations += 1
+        run_case(ctx, check_case, p, "tissue")
+        ctx.count("wheel-tissue:%d" % N)
+
+
 def run(ctx):
     drive(ctx, params(ctx.tier), check_case, ctx.budget(quick=140, thorough=700), label="tissue")
     drive(ctx, params_physics(ctx.tier), check_case, ctx.budget(quick=70, thorough=300), label="tissue", seed_offset=1)
